@@ -25,7 +25,7 @@ CONFIGS = {
         "level": "exploration",
         "rule": "one run = OMEN model (70% synthetic: n-gram 2-5, alphabet 2-4, levels from small pools incl. 10-only tables, sparse/"
                 "dense/dead-end; 30% written by the real trainer) loaded by the real loader; fault-free configuration: every level "
-                "0..Lmax with a fresh Optimizer against RefOmen (multiset, then None); history configuration: 4-10 generator "
+                "0..Lmax (8 or 24 quick, 34 thorough) with a fresh Optimizer against RefOmen (multiset, then None); history configuration: 4-10 generator "
                 "operations (start level, take j, suspend, start another level on the same Optimizer, resume, repeat a level) with "
                 "Optimizer.max_length drawn from 0..6; non-trivial = some level with >= 2 strings was generated after the cache "
                 "already held entries from another generator; distinct = distinct (model, op history)",
